@@ -185,9 +185,24 @@ class Body:
         return "".join(s["text"] for s in self.stmts)
 
 
-def gen_body(rng, fname, names, includes, marker_ids, n_stmts, allow_end=True, first_link=None, once=False):
+INCLUDE_SPELLINGS = ["relative", "./", "x/../", "absolute", "absolute/x/../", "absolute/./", "absolute//"]
+
+
+def spell_include(rng, inc_path, from_file, lexical):
+    """One of the ways to name [inc_path] in an .include of [from_file].  lexical: spellings that are only meaningful when the path is
+    normalised lexically (a directory that need not exist before '..'; absolute paths) -- used with the in-memory file map only."""
+    here = os.path.dirname(from_file)
+    rel = os.path.relpath(inc_path, here)
+    d, base = os.path.dirname(inc_path), os.path.basename(inc_path)
+    kind = rng.choice(INCLUDE_SPELLINGS if lexical else INCLUDE_SPELLINGS[:2])
+    return kind, {"relative": rel, "./": "./" + rel, "x/../": "zz/../" + rel, "absolute": inc_path, "absolute/x/../": d + "/zz/../" + base,
+                  "absolute/./": d + "/./" + base, "absolute//": d + "//" + base}[kind]
+
+
+def gen_body(rng, fname, names, includes, marker_ids, n_stmts, allow_end=True, first_link=None, once=False, lexical=False):
     labs, consts, lls = names
     b = Body(fname)
+    pending = []        # definitions of the constants that deferred-size statements refer to before they are defined
     if once:
         b.stmts.append({"k": "once", "text": ".once\n"})
     if first_link is not None:
@@ -243,8 +258,32 @@ def gen_body(rng, fname, names, includes, marker_ids, n_stmts, allow_end=True, f
             b.used_local.add(n.lower())
             b.stmts.append({"k": "local", "text": f".even\n{n}: nop\n", "size": 2, "even": True})
         elif r < 0.90:
-            kind = rng.randrange(4)
-            if kind == 0:
+            kind = rng.randrange(12)
+            if kind >= 4 and kind < 8:
+                # data directives without operands: legal (warning 'implicit-operand'), one zero element
+                text, size, even = [(".even\n.word\n", 2, True), (".even\n.dw\n", 2, True), (".byte\n", 1, False), (".even\n.dword\n", 4, True)][kind - 4]
+                b.stmts.append({"k": "fill", "text": text, "size": size, "even": even, "tag": "noop"})
+            elif kind >= 8 and not ended:
+                # size known only later: the count is a constant defined further down in the same file
+                n = fresh(consts, b.used)
+                if n is None:
+                    continue
+                k = rng.choice([0, 1, 2, 3])
+                if kind == 8:
+                    b.stmts.append({"k": "fill", "text": f".blkb {n}\n", "size": k, "even": False, "tag": "deferred"})
+                elif kind == 9:
+                    b.stmts.append({"k": "fill", "text": f".even\n.blkw {n}\n", "size": 2 * k, "even": True, "tag": "deferred"})
+                elif kind == 10:
+                    b.stmts.append({"k": "fill", "text": f".repeat {n} {{ .byte 0 }}\n", "size": k, "even": False, "tag": "deferred"})
+                else:
+                    k = 0
+                    b.stmts.append({"k": "fill", "text": f".byte {n}, {n}\n", "size": 2, "even": False, "tag": "deferred"})
+                pending.append({"k": "const", "name": n, "value": k, "text": f"{n} = {spell(rng, k)}\n", "dead": False})
+                if rng.random() < 0.5:
+                    b.stmts.append(pending.pop(rng.randrange(len(pending))))
+            elif kind >= 8:
+                continue
+            elif kind == 0:
                 b.stmts.append({"k": "fill", "text": ".even\nnop\n", "size": 2, "even": True})
             elif kind == 1:
                 b.stmts.append({"k": "fill", "text": ".byte 0\n", "size": 1, "even": False})
@@ -254,11 +293,15 @@ def gen_body(rng, fname, names, includes, marker_ids, n_stmts, allow_end=True, f
             else:
                 b.stmts.append({"k": "fill", "text": ".even\n.word 0\n", "size": 2, "even": True})
         elif r < 0.97 and includes:
-            rel, inc = rng.choice(includes)
-            b.stmts.append({"k": "include", "inc": inc, "text": f'.include "{rel}"\n', "dead": ended})
+            inc = rng.choice(includes)
+            how, path = spell_include(rng, inc.fname, fname, lexical)
+            b.stmts.append({"k": "include", "inc": inc, "how": how, "text": f'.include "{path}"\n', "dead": ended})
         elif allow_end and not ended and rng.random() < 0.5:
+            b.stmts += pending
+            pending = []
             b.stmts.append({"k": "end", "text": ".end\n"})
             ended = True
+    b.stmts += pending
     return b
 
 
@@ -267,6 +310,7 @@ class Sim:
         self.base, self.off = base, 0
         self.truth = []       # (file, name, value)
         self.labels = []      # (file, name, marker)
+        self.label_instances = []   # (file, name, value, marker), one per compiled instance
         self.times = {}
         self.instances = 0
 
@@ -286,6 +330,7 @@ class Sim:
                 local_vals[st["name"]] = v
                 self.truth.append((body.fname, st["name"], v))
                 self.labels.append((body.fname, st["name"], st["marker"]))
+                self.label_instances.append((body.fname, st["name"], v, st["marker"]))
                 self.off += 3
             elif k == "const":
                 self.truth.append((body.fname, st["name"], st["value"]))
@@ -301,17 +346,17 @@ class Sim:
                 return
 
 
-def gen_program(rng, names, root="/w"):
+def gen_program(rng, names, root="/w", lexical=False):
     marker_ids = [rng.randrange(1, 500)]
     n_inc = rng.choice([0, 0, 1, 1, 2])
     incs = []
     for i in range(n_inc):
         rel = ["inc%d.mac" % i, "sub/inc%d.mac" % i][rng.randrange(2)]
         path = os.path.normpath(os.path.join(root, rel))
-        sub = [(os.path.relpath(p.fname, os.path.dirname(path)), p) for _, p in incs] if rng.random() < 0.4 else []
+        sub = list(incs) if rng.random() < 0.4 else []
         body = gen_body(rng, path, names, sub, marker_ids, rng.choice([1, 2, 3, 5]), allow_end=rng.random() < 0.3,
-                        once=rng.random() < 0.15)
-        incs.append((rel, body))
+                        once=rng.random() < 0.3, lexical=lexical)
+        incs.append(body)
     n_files = rng.choice([1, 1, 2, 2, 3])
     base = 0o1000
     link = None
@@ -322,7 +367,7 @@ def gen_program(rng, names, root="/w"):
     for i in range(n_files):
         fname = f"{root}/m{i}.mac"
         mains.append(gen_body(rng, fname, names, incs, marker_ids, rng.choice([0, 1, 2, 4, 6, 9, 12]),
-                              first_link=link if i == 0 else None))
+                              first_link=link if i == 0 else None, lexical=lexical))
     if n_files >= 2 and rng.random() < 0.07:
         mains[1] = mains[0] if link is None else mains[1]     # the same file linked twice
     sim = Sim(base)
@@ -333,10 +378,14 @@ def gen_program(rng, names, root="/w"):
         if (f, n, m) not in markers:
             markers.append((f, n, m))
     return {"files": [(m.fname, m.text()) for m in mains],
-            "fs": {b.fname: b.text() for _, b in incs},
-            "truth": sim.truth, "markers": markers, "base": base,
+            "fs": {b.fname: b.text() for b in incs},
+            "truth": sim.truth, "markers": markers, "base": base, "label_instances": sim.label_instances,
             "features": {"twice": any(v > 1 for v in sim.times.values()), "end": any(s["k"] == "end" for m in mains for s in m.stmts),
-                         "inc": bool(incs)}}
+                         "inc": bool(incs), "link": link is not None,
+                         "once": any(s["k"] == "once" for b in incs for s in b.stmts) and any(v > 1 for v in sim.times.values()),
+                         "noop": any(s.get("tag") == "noop" for b in mains + incs for s in b.stmts),
+                         "deferred": any(s.get("tag") == "deferred" for b in mains + incs for s in b.stmts),
+                         "spell": sorted({s["how"] for b in mains + incs for s in b.stmts if s["k"] == "include"})}}
 
 
 # ---------------------------------------------------------------------------------------------
@@ -690,7 +739,7 @@ def locale_stream(rep, rng, names, tier, tmp, req, opens, judge_l, judge_c):
         seen_contents = set()
         rep.add_eval(len(LOCALES))
         rep.count("cli-locale:" + "/".join(j["kinds"]))
-        if o["outcome"] != "ok" or o["diags"]:
+        if o["outcome"] != "ok" or any(d[0] != "warning" for d in o["diags"]):
             rep.disagree("locale stream: the in-process twin does not assemble cleanly (harness ground truth unusable)", inp,
                          impl={"outcome": o["outcome"], "diags": [d[:2] for d in o["diags"]]})
             continue
@@ -796,15 +845,15 @@ def explore(rep, br, tier, seed, spec_only=False):
     opens = "Open Scope string_scope.\nImport Spec.Listing."
 
     # ---- programs
-    progs = [gen_program(rng, names) for _ in range(n_prog)]
+    progs = [gen_program(rng, names, lexical=True) for _ in range(n_prog)]
     outs = impl.pmap("assemble", [((p["files"],), {"fs": p["fs"], "want_symbols": True, "want_listing": True}) for p in progs])
     terms, meta = [], []
     for p, o in zip(progs, outs):
         rep.add_eval()
         rep.count("program:" + str(o["outcome"]))
         inp = {"kind": "program", "files": p["files"], "fs": p["fs"], "truth": p["truth"], "markers": p["markers"], "base": p["base"]}
-        if o["outcome"] != "ok" or o["diags"]:
-            # the generator is meant to produce clean programs only: fail closed
+        if o["outcome"] != "ok" or any(d[0] != "warning" or d[1] != "implicit-operand" for d in o["diags"]):
+            # the generator is meant to produce clean programs only (the warning of an operand-less data directive apart): fail closed
             rep.disagree("generator produced a program that does not assemble cleanly (harness ground truth unusable)", inp,
                          impl={"outcome": o["outcome"], "diags": [d[:2] for d in o["diags"]], "crash": o.get("crash")})
             continue
@@ -815,11 +864,13 @@ def explore(rep, br, tier, seed, spec_only=False):
         if o["base"] != p["base"]:
             rep.disagree("generator's link base differs from the implementation's", inp, impl=o["base"], model=p["base"])
             continue
+        # The generator's truth (file names in normal form, a `.once` file once, label = base + bytes laid down before it by the
+        # documented sizes) is NOT reconciled with the implementation's symbol table: where they differ the listing is judged all the
+        # same, against that truth and against the marker bytes found in the image.
         tt = table_truth_from_impl(o["symbols"], o["prefix_files"])
-        if sorted(tt) != sorted(p["truth"]):
-            rep.disagree("generator's ground truth (file, name, value) differs from the implementation's symbol table", inp,
-                         model=sorted(p["truth"])[:12], impl=sorted(tt)[:12])
-            continue
+        inp["symbol_table_agrees_with_generator"] = sorted(tt) == sorted(p["truth"])
+        img_b = bytes.fromhex(o["code"])
+        inp["markers_in_image_where_generator_laid_them"] = all(img_b[v - p["base"]:v - p["base"] + 3] == bytes(m) for _, _, v, m in p["label_instances"])
         tbl = [(k, v) for k, _, v in o["symbols"]]
         pm = sorted((int(k), f) for k, f in o["prefix_files"].items())
         img = list(bytes.fromhex(o["code"]))
@@ -842,7 +893,12 @@ def explore(rep, br, tier, seed, spec_only=False):
             rep.count("feature:names-differ-in-case-only")
         for k, on in p["features"].items():
             if on:
-                rep.count("feature:" + {"twice": "file-compiled-twice", "end": ".end-early", "inc": "has-include"}[k])
+                if k == "spell":
+                    for how in on:
+                        rep.count("include-spelling:" + how)
+                    continue
+                rep.count("feature:" + {"twice": "file-compiled-twice", "end": ".end-early", "inc": "has-include", "link": "explicit-.link",
+                                        "once": ".once-file-reached-again", "noop": "operand-less-data-directive", "deferred": "deferred-size-statement"}[k])
         if len(p["files"]) > 1:
             rep.count("feature:multi-file")
     if meta:
